@@ -1,2 +1,3 @@
 /- C08 — loop indices, connectivity and exterior loops: theorems are in Props/C08Loop.lean. -/
 import DsdVerif.Props.C08Loop
+import DsdVerif.Props.C08Obj
